@@ -18,6 +18,7 @@ func init() {
 		c19ClientsMap(c)
 		c19AuthorIP(c)
 		c19TCPPin(c)
+		c19RefusedNoEffect(c)
 	}
 }
 
@@ -100,18 +101,31 @@ func c19ClientFilter(c *Ctx) {
 		r.Fail("C19/UDP-FILTER-CLIENT", "clientUDPListener.run source IP test", p.Pos(ipEq.Pos()), fmt.Sprintf("shape not recognised (branch on Equal=%v, address from ReadFrom=%v, protected effects=%d)", ipIf != nil, fromRead, ntarget))
 		return
 	}
-	leakIP, path, _ := core.PathAvoidingE(fn, read, isTarget, nil, func(a, b *ssa.BasicBlock) bool {
+	// for the IP filter every write to the listener's own state counts as an effect too: the
+	// first-packet port binding must not be taken from a datagram of another address
+	isEffectIP := func(in ssa.Instruction) bool {
+		if isTarget(in) {
+			return true
+		}
+		if st, ok := in.(*ssa.Store); ok {
+			if fa, ok := st.Addr.(*ssa.FieldAddr); ok && len(fn.Params) > 0 && fa.X == ssa.Value(fn.Params[0]) {
+				return true
+			}
+		}
+		return false
+	}
+	leakIP, path, _ := core.PathAvoidingE(fn, read, isEffectIP, nil, func(a, b *ssa.BasicBlock) bool {
 		return a == ipIf.Block() && b == ipIf.Block().Succs[ipTrue]
 	})
 	// the branch must be on every path: no way from read to a target that bypasses the If block altogether is implied by the edge filter only if
 	// all paths go through ipIf.Block(); check separately
-	bypass, path0, _ := core.PathAvoiding(fn, read, isTarget, func(x ssa.Instruction) bool { return x == ssa.Instruction(ipIf) })
+	bypass, path0, _ := core.PathAvoiding(fn, read, isEffectIP, func(x ssa.Instruction) bool { return x == ssa.Instruction(ipIf) })
 	if leakIP || bypass {
 		pp := path
 		if bypass {
 			pp = path0
 		}
-		r.FailPath("C19/UDP-FILTER-CLIENT", "source IP filter before any effect", p.Pos(ipEq.Pos()), "a datagram from another IP address can update the last-packet time or reach the callback", core.BlockPath(p, fn, pp))
+		r.FailPath("C19/UDP-FILTER-CLIENT", "source IP filter before any effect", p.Pos(ipEq.Pos()), "a datagram from another IP address can update the last-packet time, bind the listener's port or reach the callback", core.BlockPath(p, fn, pp))
 	} else {
 		r.OK("C19/UDP-FILTER-CLIENT", "source IP filter before any effect", p.Pos(ipEq.Pos()), "effects reachable only through readIP.Equal(src) == true")
 	}
@@ -535,4 +549,121 @@ func c19TCPPin(c *Ctx) {
 		}
 	}
 	r.Check(okShape, "C19/TCP-PIN", "ServerSession.handleRequestInner pins interleaved sessions to their connection", p.Pos(fn.Pos()), "entry: ss.tcpConn != nil && sc != ss.tcpConn -> 4xx + error, before any side effect", why)
+}
+
+// c19RefusedNoEffect (added after the seeded change C19-r2m2 was missed): a
+// request that the session refused (the TCP pin answers 400 to a foreign
+// connection) must leave the session untouched. In ServerSession.runInner the
+// effects that end or unpair the session after a request are reachable from
+// the call of handleRequestInner only through an edge on which that call is
+// known to have succeeded (err == nil, or the read-function switch marker).
+func c19RefusedNoEffect(c *Ctx) {
+	p, r := c.P, c.R
+	r.Rule("C19/REFUSED-NO-EFFECT", "after a request, the session is terminated (TEARDOWN) or unpaired from the requesting connection only on an edge where handleRequestInner is known to have succeeded: a refused TEARDOWN from a foreign connection cannot end a session pinned to another connection", 2)
+	fn := p.Func("", "ServerSession.runInner")
+	h := p.Func("", "ServerSession.handleRequestInner")
+	if !r.Anchor("C19/REFUSED-NO-EFFECT", "ServerSession.runInner / handleRequestInner", fn != nil && h != nil) {
+		return
+	}
+	call := findCall(fn, func(c *ssa.Call) bool { return c.Call.StaticCallee() == h })
+	if !r.Anchor("C19/REFUSED-NO-EFFECT", "call of handleRequestInner in runInner", call != nil) {
+		return
+	}
+	var errV ssa.Value
+	for _, ref := range *call.Referrers() {
+		if ex, ok := ref.(*ssa.Extract); ok && isErrorType(ex.Type()) {
+			errV = ex
+		}
+	}
+	if !r.Anchor("C19/REFUSED-NO-EFFECT", "error result of handleRequestInner", errV != nil) {
+		return
+	}
+	derivesErr := func(v ssa.Value) bool {
+		for i := 0; i < 6; i++ {
+			if v == errV {
+				return true
+			}
+			switch x := v.(type) {
+			case *ssa.Phi:
+				for _, e := range x.Edges {
+					if e == errV {
+						return true
+					}
+				}
+				return false
+			case *ssa.ChangeInterface:
+				v = x.X
+			case *ssa.MakeInterface:
+				v = x.X
+			default:
+				return false
+			}
+		}
+		return false
+	}
+	successEdge := func(a, b *ssa.BasicBlock) bool {
+		iff, ok := a.Instrs[len(a.Instrs)-1].(*ssa.If)
+		if !ok || len(a.Succs) != 2 || a.Succs[0] == a.Succs[1] {
+			return false
+		}
+		switch x := iff.Cond.(type) {
+		case *ssa.BinOp:
+			if isNilConst(x.Y) && derivesErr(x.X) {
+				if x.Op == token.EQL {
+					return b == a.Succs[0]
+				}
+				if x.Op == token.NEQ {
+					return b == a.Succs[1]
+				}
+			}
+		case *ssa.Call:
+			if cal := x.Call.StaticCallee(); cal != nil && cal.Name() == "isSwitchReadFuncError" && len(x.Call.Args) == 1 && derivesErr(x.Call.Args[0]) {
+				return b == a.Succs[0]
+			}
+		}
+		return false
+	}
+	type eff struct {
+		in   ssa.Instruction
+		what string
+	}
+	var effects []eff
+	for _, b := range fn.Blocks {
+		for _, in := range b.Instrs {
+			switch x := in.(type) {
+			case *ssa.Return:
+				if len(x.Results) == 1 {
+					if mi, ok := x.Results[0].(*ssa.MakeInterface); ok && strings.HasSuffix(mi.X.Type().String(), "ErrServerSessionTornDown") {
+						effects = append(effects, eff{x, "terminates the session (torn down)"})
+					}
+				}
+			case *ssa.Call:
+				if bi, ok := x.Call.Value.(*ssa.Builtin); ok && bi.Name() == "delete" && strings.HasSuffix(core.PathOf(x.Call.Args[0]), ".conns") {
+					// only the delete that follows a request (reachable from the call)
+					if reach, _, _ := core.PathAvoiding(fn, call, func(y ssa.Instruction) bool { return y == ssa.Instruction(x) }, func(y ssa.Instruction) bool {
+						_, isSel := y.(*ssa.Select)
+						return isSel
+					}); reach {
+						effects = append(effects, eff{x, "unpairs the connection from the session"})
+					}
+				}
+			}
+		}
+	}
+	if len(effects) == 0 {
+		r.Fail("C19/REFUSED-NO-EFFECT", "post-request effects", p.Pos(fn.Pos()), "neither the torn-down return nor the unpairing delete was found")
+		return
+	}
+	for i, e := range effects {
+		leak, path, _ := core.PathAvoidingE(fn, call, func(y ssa.Instruction) bool { return y == e.in }, func(y ssa.Instruction) bool {
+			_, isSel := y.(*ssa.Select)
+			return isSel // the next loop iteration is another request
+		}, successEdge)
+		construct := fmt.Sprintf("ServerSession.runInner %s #%d", e.what, i+1)
+		if leak {
+			r.FailPath("C19/REFUSED-NO-EFFECT", construct, p.Pos(e.in.Pos()), "reachable after a request that handleRequestInner refused: the request of a foreign connection takes effect on the session", core.BlockPath(p, fn, path))
+		} else {
+			r.OK("C19/REFUSED-NO-EFFECT", construct, p.Pos(e.in.Pos()), "only on err == nil or the read-function switch marker")
+		}
+	}
 }
